@@ -384,6 +384,23 @@ class SkyPixSky(Relation):
         cmp_pixel(ctx, cls + ' (pixel image)', pix, pix2)
         if sp['same_frame'] or _frame_of(ss) == w['frame']:
             self._cmp_sky(ctx, cls, Sreg, back, w)
+        # positions are frame independent: whatever frame the round trip
+        # answers in, its centres / end points / vertices are the SAME points
+        # on the sky (separation() transforms between frames, attributes
+        # such as the equinox included)
+        # (between different frames astropy's own transformations do not
+        # invert exactly: FK4 <-> FK5/ICRS returns 7e-9 deg off - measured;
+        # the floor of 1e-7 deg applies there only)
+        for nm, ca, cb in _sky_positions(Sreg, back):
+            tol_deg = 1e-6 * (sp['npx'] + 2.0) * w['scale'] + (
+                1e-9 if ca.is_equivalent_frame(cb) else 1e-7)
+            sep = np.max(np.atleast_1d(ca.separation(cb).deg))
+            ctx.check(sep <= tol_deg,
+                      f'{cls} | {nm} is another point of the sky after the '
+                      'round trip',
+                      f'{sep * 3600:.3e} arcsec apart (allowed '
+                      f'{tol_deg * 3600:.1e}); region frame {_frame_of(ss)}, '
+                      f'WCS frame {w["frame"]}')
         same = sp['same_frame'] or _frame_of(ss) == w['frame']
         _cmp_meta(ctx, f'{cls} pixel image', pix.visual, pix2.visual, 'visual')
         for obj, what in ((pix, 'to_pixel'), (back, 'round trip')):
@@ -506,6 +523,23 @@ def _first_center(pix):
             c = getattr(pix, k)
             return float(c.x), float(c.y)
     return float(pix.vertices.x[0]), float(pix.vertices.y[0])
+
+
+def _sky_positions(a, b):
+    """(name, SkyCoord of a, SkyCoord of b) for every position-valued
+    parameter of two sky regions of the same structure."""
+    out = []
+    if type(a).__name__.startswith('Compound'):
+        if type(b).__name__.startswith('Compound'):
+            out += _sky_positions(a.region1, b.region1)
+            out += _sky_positions(a.region2, b.region2)
+        return out
+    for k in ('center', 'start', 'end', 'vertices'):
+        if hasattr(a, k) and hasattr(b, k) and k in a._params:
+            va, vb = getattr(a, k), getattr(b, k)
+            if np.shape(va) == np.shape(vb):
+                out.append((k, va, vb))
+    return out
 
 
 def _first_sky_center(s):
